@@ -1,11 +1,11 @@
 (* Describe.v — executable model of the type mismatch describer (C19).
 
    Mirrors /repo/internal/typemismatchdescriber.go AS IT IS NOW (after the fix: commits 02ea9b7 and 2f30deb):
-     describe / internalDescribe / describeByKind            (:856-913)
+     describe / internalDescribe / describeByKind            (:856-914)
      describeOptionalType, describeEnumType, describePatternType, describeArrayType, describeHashType,
-     describeStructType, describeTupleType/describeTuple, describeAnyType   (:606-854)
-     describeVariantType / mergeDescriptions / unique / chopPath / canonicalPath   (:135-147, :231-239, :915-990)
-     px.DescribeMismatch (:995), px.AssertType / px.AssertInstance / MismatchError (px/types.go:286-306)
+     describeStructType, describeTupleType/describeTuple, describeAnyType   (:606-855)
+     describeVariantType / mergeDescriptions / unique / chopPath / canonicalPath   (:135-147, :231-239, :916-991)
+     px.DescribeMismatch (:996), px.AssertType / px.AssertInstance / MismatchError (px/types.go:289-316)
    for the type kinds of Model/Ty.v.  Not in the fragment (so never sent to the model): Callable, Init,
    TypeAlias, TypeReference expected types (describeCallableType, describeInitType, describeTypeAliasType,
    the unresolved-reference walk of `describe`).
@@ -16,16 +16,16 @@
    strconv.Itoa(i) are `KNum i` (injective, so pathEquals is preserved).
 
    Runtime fault sites of the modelled code are explicit `Fault` results:
-     FTupleIndex   expected.Types()[ex]        (describeTuple, :805)
-     FMergeFirst   mismatches[0]               (mergeDescriptions, :957)
+     FTupleIndex   expected.Types()[ex]        (describeTuple, :788)
+     FMergeFirst   mismatches[0]               (mergeDescriptions, :955)
    (the type assertions to IntegerType in basicSizeMismatch.from/to cannot fail by Go typing: a size
    mismatch is only built from *IntegerType values and mergeMismatch's `case sizeMismatch` precedes the
    `case expectedActualMismatch` that could store another type.)
 
    Oracles (Section variables): `rx` Go regexp (through asg), `teq` TupleType.Equals in describeTuple
-   (:787).  Modelled rather than mirrored: `unique` (:980) compares mismatches by pointer; every mismatch
+   (:771).  Modelled rather than mirrored: `unique` (:979) compares mismatches by pointer; every mismatch
    in a description list is a fresh allocation (new…Mismatch / copyMismatch), so it is the identity.
-   The iteration order of the Go map in describeStructType (:737 `for key := range h2`) is not
+   The iteration order of the Go map in describeStructType (:721 `for key := range h2`) is not
    observable in (class, path): all extraneous-key mismatches of one Struct have the same image. *)
 From Coq Require Import ZArith NArith Bool List Arith.
 From PcoreV Require Import Model.Base Model.Ty Model.Lattice.
@@ -68,7 +68,7 @@ Definition pkey_eqb (a b : pkey) : bool :=
   | _, _ => false
   end.
 Definition pelem_eqb (a b : pelem) : bool := pkind_eqb (fst a) (fst b) && pkey_eqb (snd a) (snd b).
-Definition path_eqb (a b : path) : bool := list_eqb pelem_eqb a b.                 (* pathEquals :813 *)
+Definition path_eqb (a b : path) : bool := list_eqb pelem_eqb a b.                 (* pathEquals :799 *)
 Definition mclass_eqb (a b : mclass) : bool :=
   match a, b with
   | CCount, CCount | CMissingKey, CMissingKey | CMissingRequiredBlock, CMissingRequiredBlock
@@ -78,7 +78,7 @@ Definition mclass_eqb (a b : mclass) : bool :=
   end.
 Definition mismatch_eqb (a b : mismatch) : bool := mclass_eqb (fst a) (fst b) && path_eqb (snd a) (snd b).
 
-(* pathWith :826 *)
+(* pathWith :812 *)
 Definition pw (p : path) (k : pkind) (key : pkey) : path := p ++ [(k, key)].
 Definition kidx (i : nat) : pkey := KNum (N.of_nat i).                             (* strconv.Itoa(i) *)
 
@@ -95,10 +95,10 @@ Fixpoint remove_nth {A} (i : nat) (l : list A) : list A :=
 Definition chop_path (m : mismatch) (index : nat) : mismatch :=
   if (length (snd m) <=? index)%nat then m else (fst m, remove_nth index (snd m)).
 
-(* unique :978 — pointer comparison of freshly allocated mismatches: see the header *)
+(* unique :979 — pointer comparison of freshly allocated mismatches: see the header *)
 Definition unique (v : list mismatch) : list mismatch := v.
 
-(* mergeDescriptions :939, one round of the loop over mClass (:945-969):
+(* mergeDescriptions :940, one round of the loop over mClass (:946-971):
    Some prev = "descriptions = []mismatch{prev}; break", None = next class.
    mergeMismatch(prev, curr, prev.path()) keeps prev's class and path (:149). *)
 Definition merge_class_try (c : mclass) (ds : list mismatch) : res (option mismatch) :=
@@ -125,11 +125,11 @@ Fixpoint merge_loop (cs : list mclass) (ds : list mismatch) : res (list mismatch
 
 Definition merge_descriptions (varying : nat) (sm : mclass) (ds : list mismatch) : res (list mismatch) :=
   match ds with
-  | [] => Ok []                                                                   (* :941 *)
+  | [] => Ok []                                                                   (* :942 *)
   | _ =>
       bind (merge_loop [sm; CMissingRequiredBlock; CUnexpectedBlock; CType] ds)
            (fun ds' => match unique ds' with
-                       | [d] => Ok [chop_path d varying]                          (* :972 *)
+                       | [d] => Ok [chop_path d varying]                          (* :974 *)
                        | ds'' => Ok ds''
                        end)
   end.
@@ -153,7 +153,7 @@ Definition is_optional_ty (t : ty) : bool := match t with TOptional _ => true | 
 
 Section Describe.
   Variable rx : str -> str -> bool.       (* Go regexp *)
-  Variable teq : ty -> ty -> bool.        (* TupleType.Equals (tupletype.go:188) *)
+  Variable teq : ty -> ty -> bool.        (* TupleType.Equals (tupletype.go:188), consulted at :771 *)
   Notation asg := (asg rx true).          (* px.IsAssignable *)
 
   (* a describer closed over its expected type: actual -> path -> result *)
@@ -168,7 +168,7 @@ Section Describe.
     | r => r
     end.
 
-  (* describeAnyType :846 *)
+  (* describeAnyType :849 *)
   Definition describe_any (e a : ty) (p : path) : res (list mismatch) :=
     if asg e a then Ok [] else Ok [(CType, p)].
   (* describeEnumType :617, describePatternType :638 *)
@@ -229,7 +229,7 @@ Section Describe.
   Definition selem := (str * bool * dfun * dfun)%type.
   Fixpoint struct_struct_loop (p : path) (es : list selem) (h2 : members) : res (list mismatch) :=
     match es with
-    | [] => Ok (map (fun _ => (CExtraneousKey, p)) h2)                             (* :737 *)
+    | [] => Ok (map (fun _ => (CExtraneousKey, p)) h2)                             (* :721 *)
     | (n, opt, dk, dv) :: r =>
         match find_member n h2 with
         | Some (k2, v2) =>
@@ -283,7 +283,7 @@ Section Describe.
     | _ => Ok [(CType, p)]
     end.
 
-  (* describeVariantType :915; ts = (member type, its describer); None = the early `return NoMismatch` *)
+  (* describeVariantType :916; ts = (member type, its describer); None = the early `return NoMismatch` *)
   Fixpoint variant_loop (a : ty) (p : path) (ts : list (ty * dfun)) (ex : nat) (vs : list mismatch)
     : res (option (list mismatch)) :=
     match ts with
@@ -296,15 +296,15 @@ Section Describe.
         end
     end.
   Definition describe_variant (orig_optional : bool) (ts : list (ty * dfun)) (a : ty) (p : path) : res (list mismatch) :=
-    let ts' := if orig_optional then ts ++ [(TUndef, desc_flat TUndef)] else ts in   (* :918 CopyAppend *)
+    let ts' := if orig_optional then ts ++ [(TUndef, desc_flat TUndef)] else ts in   (* :920 CopyAppend *)
     match variant_loop a p ts' 0 [] with
     | Fault s => Fault s
     | Ok None => Ok []
-    | Ok (Some vs) => merge_descriptions (length p) CSize vs                      (* :930 *)
+    | Ok (Some vs) => merge_descriptions (length p) CSize vs                      (* :931 *)
     end.
 
   (* internalDescribe(expected, original, actual, path); of `original` only "is an OptionalType" is used
-     (describeVariantType :918) *)
+     (describeVariantType :919) *)
   Fixpoint idesc (e : ty) (orig_optional : bool) (a : ty) (p : path) {struct e} : res (list mismatch) :=
     guarded e a p
       match e with
@@ -327,7 +327,7 @@ Section Describe.
           describe_tuple e (map (fun t => idesc t (is_optional_ty t)) ts) lo hi a p
       | TArray et lo hi =>
           describe_array e et (idesc et (is_optional_ty et)) lo hi a p
-      | TOptional t => describe_optional (idesc t true) a p                         (* original = expected :613 *)
+      | TOptional t => describe_optional (idesc t true) a p                         (* original = expected :612 *)
       | TPattern _ | TEnum _ _ => describe_pattern e a p
       | _ => describe_any e a p
       end.
@@ -340,10 +340,10 @@ Section Describe.
   Definition subject_path (name : str) : path := [(PSubject, KName (fn_prefix ++ name ++ [58]%N))].
   Definition describe_mismatch (name : str) (e a : ty) : res (list mismatch) := describe e a (subject_path name).
 
-  (* px.AssertType / px.AssertInstance / MismatchError / TypeMismatchError (px/types.go:287-315).  `dt` is
+  (* px.AssertType / px.AssertInstance / MismatchError / TypeMismatchError (px/types.go:289-316).  `dt` is
      px.DetailedValueType(value): the inference is modelled by property C04 (Model/Infer.v); here it is an
      input.  When the description of (expected, dt) is empty although the value is not an instance,
-     MismatchError words a type mismatch of the subject itself (px/types.go:306-311): its image is
+     MismatchError words a type mismatch of the subject itself (px/types.go:305-310): its image is
      (CType, subject path). *)
   Inductive issue_code := TypeMismatchIssue.                                       (* px.TypeMismatch *)
   Inductive outcome := Returns | Raises (c : issue_code) (detail : list mismatch).
